@@ -263,7 +263,13 @@ def pairwise_cases(seed):
     return out
 
 
-def worker(cfg):
+def worker_long(cfg):
+    """Second opinion for a run stopped by the wall clock: alone, with a 15-minute bound, so that the
+    deterministic draw / population bounds decide and not the load of the machine."""
+    return worker(cfg, wall=900.0)
+
+
+def worker(cfg, wall=120.0):
     from nessai.proposal.flowproposal import FlowProposal
     from nessai.proposal.importance import ImportanceFlowProposal
     from nessai.proposal.rejection import RejectionProposal
@@ -293,7 +299,10 @@ def worker(cfg):
 
     def spop(ns):
         counters["started"] = True
-        return o_spop(ns)
+        counters["in_initial"] = True
+        r = o_spop(ns)
+        counters["in_initial"] = False
+        return r
 
     def ipop(ns):
         counters["started"] = True
@@ -314,10 +323,10 @@ def worker(cfg):
     NestedSampler.nested_sampling_loop, ImportanceNestedSampler.nested_sampling_loop = sloop, iloop
 
     def on_alarm(signum, frame):
-        raise WallClock("wall-clock bound (120 s) exceeded")
+        raise WallClock(f"wall-clock bound ({wall:.0f} s) exceeded")
 
     old = signal.signal(signal.SIGALRM, on_alarm)
-    signal.setitimer(signal.ITIMER_REAL, 120.0)
+    signal.setitimer(signal.ITIMER_REAL, wall)
     runner = runs.run_standard_case if cfg["kind"] == "std" else runs.run_ins_case
     out = dict(label=cfg["label"], status=None, detail="", invalid=cfg["invalid"])
     try:
@@ -337,6 +346,7 @@ def worker(cfg):
     except DrawCap as e:
         out["status"] = "population-does-not-terminate"
         out["detail"] = str(e)
+        out["phase"] = "initial-live-points" if counters.get("in_initial") else "sampling"
     except WallClock as e:
         out["status"] = "wall-clock"
         out["detail"] = str(e)
@@ -352,7 +362,15 @@ def worker(cfg):
 def run(ctx):
     cs = cases(ctx.seed, ctx.quick, pairwise=not ctx.quick)
     stats = {}
-    for cfg, res in ctx.pmap(worker, cs):
+    results = list(ctx.pmap(worker, cs))
+    # a run stopped by the wall clock says nothing by itself (the machine may be loaded): it is run
+    # again with few neighbours and a 15-minute bound; the deterministic bounds decide
+    slow = [cfg for cfg, res in results if res["status"] == "wall-clock"]
+    if slow:
+        again = {c["label"]: r for c, r in ctx.pmap(worker_long, slow, nproc=4)}
+        results = [(cfg, again.get(cfg["label"], res) if res["status"] == "wall-clock" else res) for cfg, res in results]
+        ctx.set("runs_repeated_after_wall_clock", len(slow))
+    for cfg, res in results:
         ctx.count("evaluations")
         stats[res["status"]] = stats.get(res["status"], 0) + 1
         if res["status"] in ("completed", "rejected-up-front"):
@@ -362,10 +380,14 @@ def run(ctx):
         if res["status"] == "population-does-not-terminate" and kwc.get("accumulate_weights") and kwc.get("constant_volume_mode") is False:
             # one underlying input: weight accumulation with a non-constant-volume (inflated) latent contour
             label = "std:accumulate_weights=True+constant_volume_mode=False(+any radius option)"
+        if res["status"] == "population-does-not-terminate" and res.get("phase") == "initial-live-points" and kwc.get("maximum_uninformed") == 0 and kwc.get("maximum_uninformed") is not False:
+            # one underlying input: with maximum_uninformed=0 the INITIAL live points are drawn from the
+            # untrained flow proposal, whose (collapsed) output may lie outside the prior bounds
+            label = "std:maximum_uninformed=0(+any option): initial live points drawn from the untrained flow"
         ctx.violation(f"{res['status']}@{label}", f"{res['status']}: {res['detail']} (model {cfg['model']}, seed {cfg['seed']})", {"cfg": {k: v for k, v in cfg.items() if k != 'kwargs' or True}})
     ctx.set("outcomes", stats)
     ctx.set("distinct_nontrivial", len({c["label"] for c in cs}))
-    ctx.set("rule", "every value of every option of the alphabet on its own (deviation 1) for both samplers on G2 (quick) / G2 and G3 with two seeds (thorough), plus every pair of valid values of two different options (thorough). Each run is classified: rejected before the first live point is drawn / completed and passing the C05 oracle / failing during sampling / failing after sampling / population loop exceeding 1000x its nominal number of latent draws / wall clock 120 s. Distinct/non-trivial: distinct option assignments")
+    ctx.set("rule", "every value of every option of the alphabet on its own (deviation 1) for both samplers on G2 (quick) / G2 and G3 with two seeds (thorough), plus every pair of valid values of two different options (thorough). Each run is classified: rejected before the first live point is drawn / completed and passing the C05 oracle / failing during sampling / failing after sampling / population loop exceeding 1000x its nominal number of latent draws / wall clock (120 s in the parallel sweep; a run stopped by it is repeated with few neighbours and a 900 s bound, and only that outcome counts). Distinct/non-trivial: distinct option assignments")
     ctx.set("exhaustive", True)
     ctx.sample({"case": cs[3]["label"], "kwargs": str(cs[3]["kwargs"])})
     ctx.assume(
